@@ -1080,6 +1080,25 @@ def sort(x, axis=-1):
     return NDArr(_obj(_sorted(list(a)))) if a.size else NDArr(a.copy())
 
 
+def partition(x, kth, axis=-1):
+    """np.partition, modelled by the full sort along the axis (the element at `kth` is the one numpy guarantees;
+    the order of the others is one numpy may or may not produce -- the concrete replay decides)"""
+    a = _obj(x)
+    if a.ndim == 1:
+        if not (-a.size <= kth < a.size):
+            raise ValueError("kth(=%d) out of bounds (%d)" % (kth, a.size))
+        return sort(a)
+    if a.ndim == 2 and axis in (-1, 1):
+        if not (-a.shape[1] <= kth < a.shape[1]):
+            raise ValueError("kth(=%d) out of bounds (%d)" % (kth, a.shape[1]))
+        out = _np.empty(a.shape, dtype=object)
+        for i in range(a.shape[0]):
+            for j, v in enumerate(_sorted(list(a[i]))):
+                out[i, j] = v
+        return NDArr(out)
+    raise ModelGap("partition along axis 0 / ndim>2")
+
+
 def argsort(x, axis=-1, kind=None):
     a = _obj(x)
     if a.ndim != 1:
